@@ -625,9 +625,9 @@ func (rck *rockEngCheckpoint) Save(path string, notify chan struct{}) error {
 	defer rck.eng.RUnlock()
 	if rck.eng.IsOpened() {
 		if notify != nil {
-			time.AfterFunc(time.Millisecond*20, func() {
-				close(notify)
-			})
+			// the checkpoint has no frozen view before it is finished: entries
+			// written while it runs can be part of it, so the caller must wait
+			defer close(notify)
 		}
 		verifhook.Crash("ckpt.engine_begin")
 		return rck.ck.Save(path, math.MaxUint64)
